@@ -130,6 +130,27 @@ theorem recvLoop_cursor (p : RPhase) (fs : List RFilter) (idx : Nat) (s : FState
           rw [← recvSwitch_keep_iff, hsw]
         simp [cursorAfter_single, ha]
 
+/-- the regenerated start guard, in the vocabulary of the theorems: a kept cursor only resumes a pass of the same phase -/
+theorem startOf_eq (s : FState) (p : RPhase) :
+    startOf s p = if s.cursor ≠ 0 ∧ p ≠ s.cphase then 0 else s.cursor := by
+  unfold startOf recvStart
+  by_cases h0 : s.cursor = 0 <;> by_cases hp : s.cphase = p <;> simp [h0, hp]
+  all_goals (first | (intro h; exact absurd h.symm hp) | skip)
+
+/-- a pass that leaves the cursor at a filter records its own phase with it -/
+theorem recvLoop_cphase (p : RPhase) (fs : List RFilter) (idx : Nat) (s : FState) :
+    (recvLoop p fs idx s).1.cursor ≠ 0 → (recvLoop p fs idx s).1.cphase = p := by
+  induction fs generalizing idx s with
+  | nil => intro h; exact absurd rfl h
+  | cons f rest ih =>
+    simp only [recvLoop]
+    split
+    · exact ih _ _
+    · split
+      · exact ih _ _
+      · intro h; exact absurd rfl h
+      · intro _; simp [keepRecordsPhase]
+
 /-! ### what a pass does to the pending-reply flags -/
 
 /-- a local reply is pending or the stream is already cleaned -/
